@@ -1,7 +1,7 @@
 import LunarVerif.Model.C16
 /-
 Property C16 in observable terms: the input document, the exclusion list, the entry point and the
-output document.  Nothing of the walk (`isCursorInExcludedPath`, cursor threading, suffix rule)
+output document.  Nothing of the walk (`isCursorInExcludedPath`, cursor threading, prefix trimming)
 appears here: positions are structural paths, an exclusion *denotes* a position only by exact
 equality with the rendering of that position in the notation of the entry point, and a position is
 covered when it or one of its ancestors is denoted.
@@ -23,11 +23,14 @@ def render : List Step → Str
   | [] => []
   | s :: p => s.render ++ render p
 
-/-- Notation 1 (`raw`): the exclusion IS the dotted path.  Notation 2 (`req`/`resp`): the exclusion is
-    `$.request.body` / `$.response.body` followed by the dotted path. -/
+/-- The two supported notations.  Dotted: the exclusion IS the dotted path (`.user.name`).  JSONPath:
+    the exclusion is `$.request.body` / `$.response.body` followed by the dotted path.
+    `raw` (`ObfuscateJSON` called with the list as is — the policy-mode lists `request_body_paths` /
+    `response_body_paths`) accepts both; the flow-mode collector (`req` / `resp`) accepts the JSONPath
+    notation rooted at ITS side of the transaction. -/
 def denotes (side : Side) (e c : Str) : Bool :=
   match side with
-  | .raw => e == c
+  | .raw => e == c || e == reqPrefix ++ c || e == respPrefix ++ c
   | .req => e == reqPrefix ++ c
   | .resp => e == respPrefix ++ c
 
@@ -134,47 +137,7 @@ def holdsOutcome (H : Str → Str) (side : Side) (ex : List Str) : Input → Out
   | .notJson e, .empty => side != .raw && e
   | .notJson _, _ => false
 
-/-! ### The class of inputs on which the unchanged code is known to deviate (findings F16a, F16b). -/
-
-/-- Exclusions the walk looks at for this entry point, described independently of the model:
-    all of them (`raw`) or those written with the entry point's prefix. -/
-def relevant (side : Side) (e : Str) : Bool :=
-  match side with
-  | .raw => true
-  | .req => reqPrefix.isPrefixOf e
-  | .resp => respPrefix.isPrefixOf e
-
-/-- The rendering `c` of a position of the document is not a string suffix of a (relevant) exclusion
-    unless that exclusion denotes exactly this position. -/
-def cursorSuffixFree (side : Side) (ex : List Str) (c : Str) : Bool :=
-  c.isEmpty || ex.all (fun e => !(relevant side e && c.isSuffixOf e) || denotes side e c)
-
-mutual
-/-- `SuffixFree doc ex`: no position of the document renders to a proper suffix of an exclusion. -/
-def suffixFreeAt (side : Side) (ex : List Str) (p : List Step) : Json → Bool
-  | .arr xs => cursorSuffixFree side ex (render p) && suffixFreeList side ex p 0 xs
-  | .obj kvs => cursorSuffixFree side ex (render p) && suffixFreeFields side ex p kvs
-  | _ => cursorSuffixFree side ex (render p)
-def suffixFreeList (side : Side) (ex : List Str) (p : List Step) (i : Nat) : List Json → Bool
-  | [] => true
-  | x :: xs => suffixFreeAt side ex (p ++ [.elem i]) x && suffixFreeList side ex p (i + 1) xs
-def suffixFreeFields (side : Side) (ex : List Str) (p : List Step) : List (Str × Json) → Bool
-  | [] => true
-  | (k, v) :: r => suffixFreeAt side ex (p ++ [.key k]) v && suffixFreeFields side ex p r
-end
-
-def suffixFree (side : Side) (ex : List Str) (d : Json) : Bool := suffixFreeAt side ex [] d
-
-/-- The whole body is not itself excluded in the prefixed notation (`$.request.body` alone). -/
-def rootNotDenoted (side : Side) (ex : List Str) : Bool :=
-  match side with
-  | .raw => true
-  | _ => !(specExcluded side ex [])
-
-/-- Classifier of a failing case: which known finding, if any, its input belongs to. -/
-def finding (side : Side) (ex : List Str) (d : Json) : Option String :=
-  if !(suffixFree side ex d) then some "F16a"
-  else if !(rootNotDenoted side ex) then some "F16b"
-  else none
+/-- Classifier of a failing case: no finding of C16 is open (F16a, F16b repaired by fixes/F16a.patch). -/
+def finding (_side : Side) (_ex : List Str) (_d : Json) : Option String := none
 
 end LunarVerif.C16
